@@ -77,4 +77,24 @@ TEXT = {
         "level_text": "Inbound backlogs up to ~400 lines, handlers that are slow / emit up to 10 lines / query Connected(), up to 4 user goroutines sending hundreds of lines, a server that reads fast, slowly or not at all, flood control on or off, six disconnect causes, reconnect from inside the DISCONNECTED handler or from another goroutine, up to 5 cycles: DISCONNECTED and every Close must complete within the bound, the connection's goroutines (identified by receiver pointer in the stack dump) must all exit, and each reconnect must yield a connection that stays up, registers with the current nick, answers PING, has a reset tracker and receives nothing stale.",
         "level_note": "'Bounded' = 20 s (typical milliseconds). User goroutines left blocked in a send on a dead connection are not promised anything and are not checked. Liveness is decided as bounded-time safety; a dead-lock that needs a rare interleaving can be missed.",
     },
+    "C05": {
+        "technique": "property-based differential testing (rapid): model-generated sessions, handlers snapshot the tracker; reference states from a separate lock-step run",
+        "level_text": "Conformant sessions from the C13 network model, every line tagged with its index, are fed to a tracked client whose foreground and background handlers on every state-changing verb snapshot the whole tracker through the public API. In lock-step mode every handler must see exactly the reference state after its line; in burst mode (all lines at once, slow foreground handlers) every foreground handler must see its line applied and no later line.",
+        "level_note": "Background handlers are checked in lock-step mode only (in burst mode later lines may legitimately be applied while they run). Interleavings are sampled.",
+    },
+    "C13": {
+        "technique": "model-based property testing (rapid): model IRC network generates conformant sessions and serves the client's MODE/WHO requests in lock-step; ground-truth + revealed-view oracle; invariant oracle for arbitrary lines",
+        "level_text": "A model IRC network (users, channels, privileges, topics, modes, events the client cannot see) generates sessions of every event kind; after every event the tracker, read through StateTracker() only, must equal the ground truth for the client's channels, the privileges the protocol revealed (NAMES prefix then MODE changes), and user details as far as JOIN prefixes and WHO replies revealed them. A second leg feeds arbitrary lines with odd/empty/prefixed names and checks the three stated invariants after every line.",
+        "level_note": "Trusted: harness/model/ircnet.go as the definition of 'conformant'. User modes are not compared. List modes b/e/I are generated (also mixed with other letters); other server-specific argument-taking modes are not.",
+    },
+    "C17": {
+        "technique": "model-based property testing (rapid): scripted-server model of nick ownership; exhaustive last-byte sweep + random strings for DefaultNewNick",
+        "level_text": "Scripts of pre-welcome collisions, welcome with the same or a server-chosen nick, client changes confirmed or refused up to three times first, server-forced changes and other users' changes to resembling names are run in lock-step; after every step Config().Me (read first) and Me() must be non-nil and Me().Nick must be the nick the model server uses; each 433 must be answered by exactly one NICK gen(refused). DefaultNewNick is checked on every last byte 0-255 and on random strings.",
+        "level_note": "Four generators (default and three custom). The chain of generated nicks is kept clear of the current nick and other users' nicks (a server would not refuse/confirm those consistently).",
+    },
+    "C19": {
+        "technique": "exhaustive small-scope enumeration of negotiation scripts + property-based testing (rapid) of large capability sets, against a negotiation model",
+        "level_text": "All 9216 combinations of wanted subset x SASL mechanism x advertised subset x server reply x SASL outcome x stray AUTHENTICATE are run as live sessions and compared line by line with a model of the negotiation (REQ as a set, AUTHENTICATE payload per mechanism, CAP END after every terminal step, HasCapability/SupportsCapability at every step); random sets of 20-120 long names force the REQ to be split over several lines.",
+        "level_note": "Exhaustive only over the stated universe {a,b,c,sasl}; multi-line LS (CAP 302) is not generated because the client asks for plain CAP LS.",
+    },
 }
